@@ -537,6 +537,9 @@ class StmtMixin:
                 if len(by_header) == 1:
                     return by_header[0]
                 raise Undecided(f'the loop contract at position {o} of {lem.func} is about a loop `{ints[o].header}`, this one is `{hdr}`')
+            if own and len(by_header) == 1 and not any(isinstance(k, tuple) and k[0] == fr.fi.qualname for k in lem.loops):
+                # loops were added to the function in front of this one: its position is free, its header names exactly one contract
+                return by_header[0]
             helper = (not own) and self.ex.contracts.get(fr.fi.qualname) is None and fr.fi.module is not None
             if helper:
                 if len(by_header) == 1:
@@ -757,7 +760,10 @@ class StmtMixin:
         if isinstance(it, VIterView) and it.kind == 'iter':
             it = it.base
         items = self.iter_concrete(it)
-        lc = self.loop_contract(st, fr)
+        try:
+            lc = self.loop_contract(st, fr)
+        except Undecided:
+            lc = None       # the contract written for this position is about another loop (as in s_While)
         if items is not None and lc is None:
             for x in items:
                 self.assign(st.target, x, fr, st)
@@ -780,7 +786,27 @@ class StmtMixin:
                 f.locals['__yield_sym__'] = it
                 return
         if lc is None:
-            raise Undecided(f'for loop at line {st.lineno} of {fr.fi.qualname} over a symbolic collection has no loop contract')
+            # No contract: nothing can be PROVED about this loop.  As for `while` (while_unrolled): the state it is reached in is the real one, so the
+            # path on which the collection is empty goes on normally and one iteration over a non-empty collection is a genuine execution prefix -
+            # refutations met there are reported; then the path is given up as undecided.
+            seqterm = None
+            if isinstance(it, VSeq):
+                seqterm = it.e
+            elif self.is_symlist(it):
+                seqterm = self.seq_get(it)
+            if seqterm is None:
+                raise Undecided(f'for loop at line {st.lineno} of {fr.fi.qualname} over a symbolic collection has no loop contract')
+            if not ex.branch(z3.Length(seqterm) > 0, f'L{st.lineno}:for-entered'):
+                self.exec_block(st.orelse, fr)
+                return
+            ex.note(f'L{st.lineno}: for loop without contract - one iteration explored for refutations, then undecided')
+            hint = getattr(ex.heap[it.addr], 'elem_hint', None) if isinstance(it, VRef) else None
+            self.assign(st.target, VSym(seqterm[0], hint=hint), fr, st)
+            try:
+                self.exec_block(st.body, fr)
+            except (BreakSig, ContinueSig):
+                pass
+            raise Undecided(f'for loop at line {st.lineno} of {fr.fi.qualname} over a symbolic collection has no loop contract (first iteration explored)')
         self.for_with_contract(st, fr, lc, it, items)
 
     def for_with_contract(self, st, fr, lc, it, items):
